@@ -615,6 +615,26 @@ func (ex *Exec) evalCall(e *Expr, env *Env) Val {
 				unsup("contract: same() needs slices or strings")
 			}
 			return ex.boolV(ts.And(ts.Eq(x.Base, y.Base), ts.Eq(x.Off, y.Off), ts.Eq(x.Len, y.Len)))
+		case "keyof":
+			// keyof(x): the identity under which a map with keys of x's type stores x (compare with `forall kid ref`)
+			v := ex.eval1(args[0], env)
+			var kt types.Type
+			switch x := v.(type) {
+			case SliceV:
+				if x.IsString {
+					kt = types.Typ[types.String]
+				}
+			case StructV:
+				kt = x.Typ
+			case Scalar:
+				kt = x.Typ
+			case RefPtr:
+				return x
+			}
+			if kt == nil {
+				unsup("contract: keyof of %T", v)
+			}
+			return RefPtr{Ref: ex.keyTerm(v, kt)}
 		case "disjoint":
 			// disjoint(a, b): the two slices do not share a backing object (a nil slice shares nothing)
 			x, okx := ex.eval1(args[0], env).(SliceV)
